@@ -174,7 +174,10 @@ Section Mgr.
 
   (* Manager.add_end_molecule(molecule) for a Molecule whose name is that of species i
      (i out of range = a name the system does not have: KeyError);
-     Alignment.end setter: first assignment copies; a later one must be == the current end *)
+     Alignment.end setter: first assignment copies; a later one must be == the current end.
+     The attribute route `manager.molecule_correspondence[name].end = molecule` (what the command line does) is the
+     same setter: the state, and with it the pre-flight and the trace, depend on the CURRENT attachments only -
+     complete_correspondence is recomputed at every use *)
   Definition add_end (sps : list sp) (i : nat) (e : E) : res (list sp) :=
     match nth_error sps i with
     | None => Err EKey
@@ -184,6 +187,13 @@ Section Mgr.
             if eeq e old then Ok (update sps i (mkSp true (Some e) (sp_map st))) else Err EValue
         | s, _ => Ok (update sps i (mkSp s (Some e) (sp_map st)))
         end
+    end.
+
+  (* manager.molecule_correspondence[name].end = None : the end molecule is detached, the map object stays *)
+  Definition remove_end (sps : list sp) (i : nat) : res (list sp) :=
+    match nth_error sps i with
+    | None => Err EKey
+    | Some st => Ok (update sps i (mkSp (sp_start st) None (sp_map st)))
     end.
 
   (* Manager.calculate_exchange_maps(...): every complete species, in dict order, gets a new map;
@@ -210,7 +220,8 @@ Section Mgr.
 
   (* a session on one Manager *)
   Inductive op :=
-  | OAddEnd (i : nat) (e : E)
+  | OAddEnd (i : nat) (e : E)            (* add_end_molecule(s), or molecule_correspondence[name].end = molecule *)
+  | ORemoveEnd (i : nat)                 (* molecule_correspondence[name].end = None *)
   | OCalc (a : A)
   | OExtrap (f : F) (mols : list (minst I)).   (* the instances with the draws of THIS call *)
 
@@ -225,6 +236,11 @@ Section Mgr.
         match o with
         | OAddEnd i e =>
             match add_end sps i e with
+            | Ok sps' => let (os, fin) := run title box sps' rest in (ORes (Ok tt) :: os, fin)
+            | Err er => let (os, fin) := run title box sps rest in (ORes (Err er) :: os, fin)
+            end
+        | ORemoveEnd i =>
+            match remove_end sps i with
             | Ok sps' => let (os, fin) := run title box sps' rest in (ORes (Ok tt) :: os, fin)
             | Err er => let (os, fin) := run title box sps rest in (ORes (Err er) :: os, fin)
             end
